@@ -8,17 +8,17 @@ from .common import concrete_message_classes, flag, lower_first, path_text
 from .routermodel import World, deliveries, message_obj, router_cls, run_router
 
 EXPLANATION = (
-    "Truth-table analysis of the router's from-client branch plus the direction table. C04.DIR: the from_client/from_device class flags "
-    "of every concrete message class equal the INDI direction table. C04.DEV: Router.process_message is abstractly interpreted for every "
-    "concrete message class x sender in {device0, a client, none} x message device in {A, none}, with two abstract devices whose accepts() "
-    "result is left symbolic (the exploration forks on it): on every path a device receives the message exactly once iff the message is "
-    "client-originated, the device is not the sender and its accepts(message.device) was assumed true; accepts is asked about "
-    "message.device; the message is handed over unmodified. C04.NOLEAK: on no path is a message handed to a client unless it is "
-    "device-originated per the protocol table (only getProperties is both). C04.HIST: two consecutive messages with different senders on one "
-    "router (built by interpreting Router.__init__ and the register functions, helper methods inlined): the routing of the second is "
-    "independent of the first. C04.ACC: Driver.accepts evaluated over {none, own name, "
-    "other name} = (T,T,F); a constant-true implementation is the catch-all device; every concrete routing.Device subclass overrides "
-    "accepts and message_from_client. C04.WRITE is shared with C05.WRITE (who may write the tables)."
+    "Truth-table analysis of the router's from-client branch plus the direction table. C04.DIR: the from_client/from_device class flags of every "
+    'concrete message class equal the INDI direction table. C04.DEV: Router.process_message is abstractly interpreted for every concrete message '
+    'class x sender in {device0, a client, none} x message device in {A, none}, with two abstract devices whose accepts() result is left symbolic '
+    '(the exploration forks on it): on every path a device receives the message exactly once iff the message is client-originated, the device is '
+    'not the sender and its accepts(message.device) was assumed true; accepts is asked about message.device; the message is handed over '
+    'unmodified. C04.NOLEAK: on no path is a message handed to a client unless it is device-originated per the protocol table (only getProperties '
+    'is both). C04.HIST: two consecutive messages with different senders on one router (built by interpreting Router.__init__ and the register '
+    "functions, helper methods inlined): the routing of the second is independent of the first. C04.ACC: accepts of a driver 'A' constructed "
+    "beside a driver 'B' evaluated over {none, own name, other name, other case, longer, empty} = (T,T,F,F,F,F), and each constructed driver "
+    'reports the name it was built with; a constant-true implementation is the catch-all device; every concrete routing.Device subclass overrides '
+    'accepts and message_from_client. C04.WRITE is shared with C05.WRITE (who may write the tables).'
 )
 NOT_DECIDED = "exactly-once under histories that register the same device object twice."
 ASSUMPTIONS = ["devices and clients do not override __eq__ (identity in 'device == sender')"]
